@@ -562,10 +562,51 @@ func InstallTypesModels(m *interp.Machine, prog *load.Program) {
 
 // RemoveVarModels lets the real registry.Var methods be interpreted (engines R and N).
 func RemoveVarModels(m *interp.Machine) {
-	for _, form := range []string{"(*" + load.PkgRegistry + ".Var).", "(" + load.PkgRegistry + ".Var)."} {
+	for _, form := range varMethodForms(m.Prog) {
 		delete(m.Ext, form+"TypeString")
 		delete(m.Ext, form+"IsSlice")
 	}
+}
+
+// varMethodForms: the receiver forms under which the exported rendering methods of registry.Var are
+// declared — Var itself, or the struct Var embeds that declares them (found through the method set of
+// *Var, so that moving the methods into an embedded part is followed).
+func varMethodForms(prog *load.Program) []string {
+	forms := []string{"(*" + load.PkgRegistry + ".Var).", "(" + load.PkgRegistry + ".Var)."}
+	if prog == nil {
+		return forms
+	}
+	for _, name := range []string{"TypeString", "IsSlice"} {
+		fn := prog.LookupFunc(load.PkgRegistry, "Var."+name)
+		if fn == nil {
+			continue
+		}
+		sig, _ := fn.Type().(*types.Signature)
+		if sig == nil || sig.Recv() == nil {
+			continue
+		}
+		t := sig.Recv().Type()
+		if p, ok := t.(*types.Pointer); ok {
+			t = p.Elem()
+		}
+		n, ok := types.Unalias(t).(*types.Named)
+		if !ok || n.Obj().Pkg() == nil {
+			continue
+		}
+		q := n.Obj().Pkg().Path() + "." + n.Obj().Name()
+		for _, f := range []string{"(*" + q + ").", "(" + q + ")."} {
+			dup := false
+			for _, have := range forms {
+				if have == f {
+					dup = true
+				}
+			}
+			if !dup {
+				forms = append(forms, f)
+			}
+		}
+	}
+	return forms
 }
 
 // NewPackageValue builds a registry.Package for the abstract go/types package by interpreting the exported
@@ -610,7 +651,7 @@ func InstallVarModels(m *interp.Machine) {
 		t, _ := vr.Attrs["type"].(*interp.Opaque)
 		return t
 	}
-	for _, form := range []string{"(*" + load.PkgRegistry + ".Var).", "(" + load.PkgRegistry + ".Var)."} {
+	for _, form := range varMethodForms(m.Prog) {
 		m.Ext[form+"TypeString"] = func(m *interp.Machine, pos token.Pos, recv interp.Value, args []interp.Value) (interp.Value, error) {
 			if t := typeOf(recv); t != nil {
 				if text, ok := t.Attrs["text"].(*interp.Sym); ok {
